@@ -18,12 +18,14 @@ type Env struct {
 	names     map[string]Val
 	onlyNames bool
 	bound     map[string]Val
+	preNames  map[string]Val
+	preState  *State
 }
 
 type evalErr struct{ msg string }
 
 func (fx *FX) newEnv(fr *frame, st *State) *Env {
-	return &Env{fx: fx, fr: fr, st: st, names: map[string]Val{}, bound: map[string]Val{}}
+	return &Env{fx: fx, fr: fr, st: st, old: fx.oldState, names: map[string]Val{}, bound: map[string]Val{}}
 }
 
 func (env *Env) fail(format string, a ...interface{}) {
@@ -556,6 +558,22 @@ func (fx *FX) evalCall(env *Env, t *ECall) Val {
 		env.st = env.old
 		v := arg(0)
 		env.st = saved
+		return v
+	case "pre":
+		if env.preState == nil {
+			env.fail("pre() outside a loop step clause")
+		}
+		savedSt, savedNames := env.st, env.names
+		merged := map[string]Val{}
+		for k, v := range env.names {
+			merged[k] = v
+		}
+		for k, v := range env.preNames {
+			merged[k] = v
+		}
+		env.st, env.names = env.preState, merged
+		v := arg(0)
+		env.st, env.names = savedSt, savedNames
 		return v
 	case "len":
 		x := arg(0)
